@@ -44,6 +44,9 @@ ASSUMPTIONS = [
     'values are inside the port\'s domain (validation of values is property C05); len(values) = len(delays) is enforced by '
     'patch_port_sequence before a Sequence is built',
     'the port driver does not raise in is_persisted() / is_writable() and does not suspend there',
+    'concurrent commands: pairs of {new sequence, disable} whose first task steps run in the same loop iteration; the '
+    'replacement sequences of a pair have delays >= 1 ms (a superseded one takes exactly one step); the exact model of pairs '
+    '(sim2) is the code with fixes/C19-concurrent-cancel.diff',
 ]
 
 KIND_CODE = {'none': 0, 'seq': 1, 'expr': 2, 'noexpr': 3, 'disable': 4}
@@ -135,11 +138,37 @@ def gen_family(rng, per_base):
         if kind in ('seq', 'badseq'):
             cmd.update(gen_seq(rng, 100, allow_empty=True, small=True))
             cmd['kind'] = 'seq'
+            if kind == 'seq' and rng.random() < 0.25:
+                # a client retry / re-arming: the running sequence requested again, exactly — it restarts from v1
+                cmd.update({'values': list(seq['values']), 'delays': list(seq['delays']), 'repeat': seq['repeat']})
             if kind == 'badseq':
                 cmd['delays'] = cmd['delays'] + [3] if rng.random() < 0.5 or not cmd['delays'] else cmd['delays'][:-1]
         if kind == 'none':
             cmd = {'kind': 'none', 'at': 0, 'pos': 0}
-        out.append(finish_scenario(rng, port, seq, cmd))
+        sc = finish_scenario(rng, port, seq, cmd)
+        if kind == 'disable' and rng.random() < 0.4:
+            # the driver's handle_disable() hook really awaits: steps of the sequence fall due while it does
+            sc['dlat'] = rng.choice([1, 2, 3, 5, 10, 25])
+            sc['horizon'] = max(sc['horizon'], cmd['at'] + sc['dlat'] + 2)
+        if admitted(sc) and kind in ('seq', 'disable') and rng.random() < 0.3:
+            # a second command started in the same loop iteration (two requests; a request and a disable)
+            if kind == 'seq' and len(cmd['values']) != len(cmd['delays']):
+                pass
+            else:
+                sc.pop('dlat', None)
+                other = 'seq' if kind == 'disable' or rng.random() < 0.6 else 'disable'
+                c2 = {'kind': other}
+                if other == 'seq':
+                    c2.update(gen_seq(rng, 200, allow_empty=True, small=True))
+                    c2['delays'] = [max(1, abs(d)) for d in c2['delays']]
+                if kind == 'seq':
+                    cmd['delays'] = [max(1, abs(d)) for d in cmd['delays']]
+                    if cmd['repeat'] <= 0 and not cmd['values']:
+                        cmd['repeat'] = 1
+                sc['cmd2'] = c2
+                ends = [layout(c)[0] for c in (cmd, c2) if c['kind'] == 'seq']
+                sc['horizon'] = max(layout(seq)[0], cmd['at'] + max(ends + [0])) + 3
+        out.append(sc)
     return out
 
 
@@ -180,8 +209,9 @@ def fuel_of(sc):
     h = sc['horizon']
     n1 = len(firing_times(sc['seq']['values'], sc['seq']['delays'], sc['seq']['repeat'], 0, h, 2000))
     n2 = 0
-    if sc['cmd']['kind'] == 'seq':
-        n2 = len(firing_times(sc['cmd']['values'], sc['cmd']['delays'], sc['cmd']['repeat'], sc['cmd']['at'], h, 2000))
+    for c in (sc['cmd'], sc.get('cmd2') or {'kind': 'none'}):
+        if c['kind'] == 'seq':
+            n2 = max(n2, len(firing_times(c['values'], c['delays'], c['repeat'], sc['cmd']['at'], h, 2000)))
     return 2 * max(n1, n2) + 8
 
 
@@ -217,11 +247,14 @@ def coq_obs(log):
 def coq_case(sc, obs):
     cmd = sc['cmd']
     p = sc['port']
-    return 'Case %s %s %s %s %s %s %s %s %s %s %s %d%%nat %s %d%%nat\n    %s' % (
+    c2 = sc.get('cmd2') or {'kind': 'none'}
+    return 'Case %s %s %s %s %s %s %s %s %s %s %s %d%%nat %s %d%%nat %s %s %s %s %s\n    %s' % (
         coq.boolean(p['enabled']), coq.boolean(p['writable']), coq.boolean(p['expr']),
         coq.zlist(sc['seq']['values']), coq.zlist(sc['seq']['delays']), coq.z(sc['seq']['repeat']),
         coq.z(KIND_CODE[cmd['kind']]), coq.zlist(cmd.get('values', [])), coq.zlist(cmd.get('delays', [])),
-        coq.z(cmd.get('repeat', 0)), coq.z(cmd['at']), cmd['pos'], coq.z(sc['horizon']), fuel_of(sc), coq_obs(obs['log']))
+        coq.z(cmd.get('repeat', 0)), coq.z(cmd['at']), cmd['pos'], coq.z(sc['horizon']), fuel_of(sc),
+        coq.z(sc.get('dlat', 0)), coq.z(KIND_CODE[c2['kind']]), coq.zlist(c2.get('values', [])), coq.zlist(c2.get('delays', [])),
+        coq.z(c2.get('repeat', 0)), coq_obs(obs['log']))
 
 
 def integral(log):
@@ -246,13 +279,38 @@ def classify(sc, obs):
     cmd = sc['cmd']
     key = {'command': cmd['kind']}
     ci = next((i for i, e in enumerate(log) if e[0] == 3), None)
-    if any(e[0] == 4 and e[2] == 5 for e in log) or (log and log[0][0] == 0 and log[0][2] == 5):
+    same = cmd['kind'] == 'seq' and all(cmd.get(k) == sc['seq'][k] for k in ('values', 'delays', 'repeat'))
+    if sc.get('cmd2'):
+        c2 = sc['cmd2']
+        key['command'] = '%s+%s' % (cmd['kind'], c2['kind'])
+        rets = [i for i, e in enumerate(log) if e[0] in (4, 6)]
+        tail = [e for e in log[(rets[-1] + 1) if rets else 0:] if e[0] == 1]
+        gens = sorted(set(e[2] // 100 for e in tail))
+        if 'disable' in (cmd['kind'], c2['kind']) and tail:
+            key['aspect'] = 'sequence keeps playing after a concurrent disable'
+            what = ('%s and %s started in the same loop iteration at %d ms while a sequence was running: after both returned the '
+                    'port is disabled but values %s are still submitted' % (cmd['kind'], c2['kind'], cmd['at'], [[e[1], e[2]] for e in tail][:8]))
+        elif len(gens) > 1:
+            key['aspect'] = 'orphan sequence after concurrent requests'
+            what = ('two sequence requests started in the same loop iteration at %d ms while a sequence was running: both new '
+                    'sequences play (%s ...), one of them is no longer referenced by the port and can never be cancelled'
+                    % (cmd['at'], [[e[1], e[2]] for e in tail][:8]))
+        else:
+            key['aspect'] = 'concurrent commands: outcome of neither serial order'
+            what = 'commands %s and %s started together at %d ms: the observed log is not that of either serial order' % (
+                cmd['kind'], c2['kind'], cmd['at'])
+    elif any(e[0] == 4 and e[2] == 5 for e in log) or (log and log[0][0] == 0 and log[0][2] == 5):
         key['aspect'] = 'CancelledError raised by Sequence.cancel()'
         what = ('%s at %d ms (after %d task step(s) due at that instant) hit a sequence task that had not taken its first step: '
                 'Sequence.cancel() re-raised CancelledError, the command was aborted and the port keeps a dead sequence'
                 % (cmd['kind'], cmd['at'], cmd['pos']))
+    elif same and admitted(sc):
+        key['aspect'] = 'running sequence requested again'
+        what = ('the running sequence %s / %s / repeat %s was requested again at %d ms and accepted, but was not played from v1 '
+                'for the requested passes from that instant (submissions %s)'
+                % (cmd['values'], cmd['delays'], cmd['repeat'], cmd['at'], [[e[1], e[2]] for e in log if e[0] == 1][:14]))
     elif ci is not None and any(e[0] == 1 and e[2] < 100 for e in log[ci:]) and cmd['kind'] != 'none' and not (
-            cmd['kind'] == 'seq' and len(cmd['values']) != len(cmd['delays'])):
+            cmd['kind'] == 'seq' and (len(cmd['values']) != len(cmd['delays']) or any(v < 100 for v in cmd['values']))):
         key['aspect'] = 'value of the old sequence submitted after the command'
         what = 'a value of the replaced/cancelled sequence was submitted after the %s command at %d ms' % (cmd['kind'], cmd['at'])
     elif admitted(sc) and missing_steps(sc, log):
@@ -308,7 +366,7 @@ def evaluate(ctx, res, scenarios, origin, stats):
         usable.append((sc, ob))
         # one driver write per submitted value, in order, at the instant of the submission (the harness driver confirms a
         # write at once and the port stays enabled) — the FULL list of writes, not the list of value changes
-        if sc['cmd']['kind'] != 'disable' and not writes_ok(ob):
+        if 'disable' not in (sc['cmd']['kind'], (sc.get('cmd2') or {}).get('kind')) and not writes_ok(ob):
             res['violations'].append({
                 'key': {'command': sc['cmd']['kind'], 'aspect': 'driver writes differ from submissions'},
                 'what': 'the driver was written %s but the sequence submitted %s (values %s delays %s repeat %s, port showed %s)'
@@ -329,7 +387,7 @@ def evaluate(ctx, res, scenarios, origin, stats):
         meta.append(part)
     t0 = time.time()
     outs = coq.eval_shards(ctx.workdir, 'c19_%s' % origin, HEADER, shards,
-                           ['bad_model cases', 'bad_spec cases', 'bad_model_old cases'])
+                           ['bad_model cases', 'bad_spec cases', 'bad_model_old cases'], jobs=2)
     stats['coq_wall_s'] = round(stats.get('coq_wall_s', 0) + time.time() - t0, 2)
     for (rc, lists, err), part in zip(outs, meta):
         if rc != 0 or len(lists) != 3:
@@ -365,6 +423,12 @@ def account(sc, ob, res, stats):
         d[k] = d.get(k, 0) + n
     cmd = sc['cmd']
     inc('cmd:' + cmd['kind'])
+    if sc.get('cmd2'):
+        inc('concurrent pair:%s+%s' % (cmd['kind'], sc['cmd2']['kind']))
+    if sc.get('dlat'):
+        inc('disable with a slow handle_disable hook')
+    if cmd['kind'] == 'seq' and all(cmd.get(k) == sc['seq'][k] for k in ('values', 'delays', 'repeat')):
+        inc('replacement identical to the running sequence')
     inc('n=%d' % len(sc['seq']['values']))
     inc('repeat=%s' % (sc['seq']['repeat'] if sc['seq']['repeat'] <= 4 else '>4'))
     if any(x <= 0 for x in sc['seq']['delays']):
@@ -444,8 +508,9 @@ def run_all(ctx, res, n_total, rng):
 def check(ctx, res):
     res['rule'] = (
         'scenario = (port state, first sequence request at 0 ms, one command [new sequence | expression | empty expression | '
-        'disable | malformed request | none] at instant `at` ordered after `pos` steps of the sequence task due at that same '
-        'instant, horizon). n <= 8 values, delays from {-4,0,1,2,3,5,7,10,20} ms, repeat -1..4; `at` drawn half of the time '
+        'disable (handle_disable hook taking 0-25 ms) | malformed request | none] at instant `at` ordered after `pos` steps of '
+        'the sequence task due at that same instant, optionally a second command (sequence | disable) started in the same '
+        'loop iteration, horizon). A quarter of the replacements repeat the running sequence exactly. n <= 8 values, delays from {-4,0,1,2,3,5,7,10,20} ms, repeat -1..4; `at` drawn half of the time '
         'exactly from the firing instants, otherwise from the full millisecond grid (incl. one tick before/after firings, 0, '
         'after the end); plus an exhaustive block (every instant x positions 0-3 x command kinds) for fixed sequences. '
         'distinct = distinct scenarios; non-trivial = first request accepted, >= 2 submissions due before the horizon and '
